@@ -14,22 +14,35 @@
 (* emit behaviours for replay on the real code and is hidden by the VIEW    *)
 (* in the exhaustive run.                                                   *)
 (***************************************************************************)
-EXTENDS Props, AirInterp, TLC, Json, IOUtils
+EXTENDS Props, AirInterp, ScriptGen, TLC, Json, IOUtils
 
 CONSTANTS MaxRuns, MaxDeliveries, MaxBogus,
           CheckIds        \* the property ids checked on every transition
 
-Hist0 == JsonDeserialize(IOEnv.SCRIPT)       \* {script, init, peers, ...}: one catalogue entry
-Script == Hist0.script
-InitPeer == Hist0.init
-Peers == SeqToSet(Hist0.peers)
+\* the scripts explored: one catalogue entry {script, init, peers, ...} when SCRIPT names a file, otherwise the generated
+\* family ScriptGen!Family(GEN_K, GEN_LEVEL) restricted to the index window GEN_FROM..GEN_TO (one initial state per script)
+GenK == atoi(IOEnv.GEN_K)
+GenLevel == atoi(IOEnv.GEN_LEVEL)
+GenAll == Family(GenK, GenLevel)
+GenFrom == IF "GEN_FROM" \in DOMAIN IOEnv THEN atoi(IOEnv.GEN_FROM) ELSE 1
+GenTo == IF "GEN_TO" \in DOMAIN IOEnv THEN atoi(IOEnv.GEN_TO) ELSE Len(GenAll)
+Entries ==
+    IF "SCRIPT" \in DOMAIN IOEnv THEN <<JsonDeserialize(IOEnv.SCRIPT)>>
+    ELSE [i \in 1..Len(GenAll) |-> EntryOf(GenAll[i], GenLevel)]
+EntryIdx == IF "SCRIPT" \in DOMAIN IOEnv THEN {1} ELSE {i \in 1..Len(GenAll) : i >= GenFrom /\ i <= GenTo}
 
-VARIABLES st, dl, nbogus, viol, hist
-vars == <<st, dl, nbogus, viol, hist>>
-View == <<st, dl, nbogus, viol>>
+VARIABLES st, dl, nbogus, viol, hist, sid
+vars == <<st, dl, nbogus, viol, hist, sid>>
+View == <<st, dl, nbogus, viol, sid>>
+
+Script == st.script
+InitPeer == st.init
+Peers == st.names
 
 Init ==
-    /\ st = InitState(Script, Peers, InitPeer)
+    /\ \E i \in EntryIdx :
+        /\ sid = i
+        /\ st = InitState(Entries[i].script, SeqToSet(Entries[i].peers), Entries[i].init)
     /\ dl = <<>>
     /\ nbogus = 0
     /\ viol = {}
@@ -93,6 +106,7 @@ Take(e, hstep) ==
                 + (IF e.cur.ver # 0 /\ m = <<e.cur.from, e.cur.ver, e.peer>> THEN 1 ELSE 0)]
     /\ viol' = Violations(st, t, e)
     /\ hist' = Append(hist, hstep)
+    /\ sid' = sid
 
 Start ==
     /\ ~st.started
@@ -127,11 +141,14 @@ Next == st.runs < MaxRuns /\ (Start \/ Deliver \/ HostReturn \/ HostReturnBogus)
 Spec == Init /\ [][Next]_vars
 
 \* ---------------------------------------------------------------------------
-NoViolation == viol = {} \/ (PrintT(<<"MODELVIOL", viol, ToJson(hist)>>) /\ FALSE)
+NoViolation == viol = {} \/ (PrintT(<<"MODELVIOL", viol, ToJson(hist), sid>>) /\ FALSE)
 
 \* nothing left to do except duplicates: every wanted message delivered once, nothing pending
 Done == Quiescent(st) \/ st.runs >= MaxRuns
 
 \* behaviour emission (run without the VIEW): one line per complete schedule
-EmitSchedules == Done => PrintT(<<"SCHED", ToJson(hist)>>)
+EmitSchedules == Done => PrintT(<<"SCHED", ToJson(hist), sid>>)
+
+\* the generated family itself, one line per script (run with MaxRuns = 0)
+EmitScripts == PrintT(<<"GENSCRIPT", sid, ToJson(st.script)>>)
 =============================================================================
